@@ -23,7 +23,7 @@ META = {
              "auto|cross x full|single-bin; non-trivial: (i)/(ii) every case (the clean reference result is non-zero), (iii) records that are not "
              "identically zero"),
     "exhaustive": True,
-    "bounds": {"quick": "N=8; kinds NaN/+Inf/-Inf/mixed; containers: C float64 ndarray, float32, Fortran-ordered 2xN, Nx2, strided view, read-only array, list of lists, list of arrays; dtypes f8,f4,i8,i4,bool; scales 1e-150,1,1e150",
+    "bounds": {"quick": "N=8; kinds NaN/+Inf/-Inf/mixed; containers: C float64 ndarray, float32, Fortran-ordered 2xN (also read-only), C- and Fortran-ordered Nx2 (also read-only), strided view, read-only array, list of lists, list of arrays; backends numba and numpy; dtypes f8,f4,i8,i4,bool; scales 1e-150,1,1e150",
                "thorough": "(iii) over {-2,0,1}^8"},
     "assumptions": ["cf_db at cf=0 is -inf by definition of a decibel and is not demanded to be finite",
                     "magnitude alphabet {1e-150,1,1e150}: the spectral densities themselves are representable in float64"],
@@ -50,6 +50,22 @@ def containers():
         a = np.ascontiguousarray(np.stack([x, y]).T)
         return a, [a]
 
+    def nx2_f(x, y):
+        base = np.ascontiguousarray(np.stack([x, y]))
+        return base.T, [base]          # Fortran-ordered Nx2 view (what np.vstack([x, y]).T gives)
+
+    def nx2_f_readonly(x, y):
+        base = np.ascontiguousarray(np.stack([x, y]))
+        v = base.T
+        v.setflags(write=False)
+        base.setflags(write=False)
+        return v, [base]
+
+    def fortran_readonly(x, y):
+        a = np.asfortranarray(np.stack([x, y]))
+        a.setflags(write=False)
+        return a, [a]
+
     def strided(x, y):
         big = np.zeros((2, 2 * x.size))
         big[:, ::2] = np.stack([x, y])
@@ -69,8 +85,8 @@ def containers():
         xa, ya = x.copy(), y.copy()
         return [xa, ya], [xa, ya]
 
-    return {"c64": c64, "f32": f32, "fortran": fortran, "nx2": nx2, "strided": strided, "readonly": readonly,
-            "listlist": lol, "listarr": loa}
+    return {"c64": c64, "f32": f32, "fortran": fortran, "nx2": nx2, "nx2_F": nx2_f, "nx2_F_readonly": nx2_f_readonly,
+            "fortran_readonly": fortran_readonly, "strided": strided, "readonly": readonly, "listlist": lol, "listarr": loa}
 
 
 def containers_1d():
@@ -101,10 +117,12 @@ def containers_1d():
 def shards(tier, seed):
     out = []
     for cn in containers():
-        for order in (0, 2):
-            out.append({"part": "nonfinite", "container": cn, "order": order, "seed": seed})
+        for order, backend in ((0, "numba"), (2, "numba"), (0, "numpy"), (1, "numpy")):
+            out.append({"part": "nonfinite", "container": cn, "order": order, "seed": seed, "backend": backend})
     for cn in containers_1d():
-        out.append({"part": "nonfinite1d", "container": cn, "order": 0, "seed": seed})
+        for backend in ("numba", "numpy"):
+            out.append({"part": "nonfinite1d", "container": cn, "order": 0, "seed": seed, "backend": backend})
+    out.append({"part": "untouched", "seed": seed})
     out.append({"part": "layout", "seed": seed})
     n = 6 if tier == "quick" else 8
     M = 3 ** n
@@ -116,7 +134,7 @@ def shards(tier, seed):
 
 def run_shard(shard):
     ana.quiet()
-    return {"nonfinite": _nonfinite, "nonfinite1d": _nonfinite1d, "layout": _layout, "finite": _finite,
+    return {"nonfinite": _nonfinite, "nonfinite1d": _nonfinite1d, "layout": _layout, "finite": _finite, "untouched": _untouched,
             "finite1": _finite_case}[shard["part"]](shard)
 
 
@@ -166,9 +184,9 @@ def _nonfinite(shard):
             obj, snaps = build(xp, yp)
             before = [s.tobytes() for s in snaps]
             case = dict(shard, only=[mask, kind, who])
-            tag = f"{shard['container']}/order={shard['order']}"
+            tag = f"{shard['container']}/order={shard['order']}/{shard.get('backend', 'numba')}"
             try:
-                r = ana.make_analyzer(obj, 2.0, order=shard["order"], **KW).compute()
+                r = ana.make_analyzer(obj, 2.0, order=shard["order"], backend=shard.get("backend", "numba"), **KW).compute()
             except Exception as e:  # noqa: BLE001
                 out["evals"] += 1
                 if f"raises/{tag}" not in seen:
@@ -176,7 +194,7 @@ def _nonfinite(shard):
                     out["failures"].append(fw.fail(f"raises/{tag}", f"non-finite input ({kind} at {idx} in {who}) raised {type(e).__name__}: {e}", case))
                 continue
             clean = ana.make_analyzer(np.stack([zero_fill(xp), zero_fill(yp)]).astype(np.float32).astype(np.float64) if shard["container"] == "f32" else np.stack([zero_fill(xp), zero_fill(yp)]),
-                                      2.0, order=shard["order"], **KW).compute()
+                                      2.0, order=shard["order"], backend=shard.get("backend", "numba"), **KW).compute()
             out["evals"] += 1
             out["nontrivial"] += 1
             k = same(rawdict(r), rawdict(clean))
@@ -208,9 +226,9 @@ def _nonfinite1d(shard):
             obj, snaps = build(xp)
             before = [s.tobytes() for s in snaps]
             case = dict(shard, only=[mask, kind])
-            tag = f"1d/{shard['container']}"
+            tag = f"1d/{shard['container']}/{shard.get('backend', 'numba')}"
             try:
-                an = ana.make_analyzer(obj, 2.0, order=shard["order"], **KW)
+                an = ana.make_analyzer(obj, 2.0, order=shard["order"], backend=shard.get("backend", "numba"), **KW)
                 r = an.compute()
                 sb = an.compute_single_bin(0.3, L=4)
             except Exception as e:  # noqa: BLE001
@@ -222,7 +240,7 @@ def _nonfinite1d(shard):
             zf = zero_fill(xp)
             if shard["container"] == "f32":
                 zf = zf.astype(np.float32).astype(np.float64)
-            anc = ana.make_analyzer(zf, 2.0, order=shard["order"], **KW)
+            anc = ana.make_analyzer(zf, 2.0, order=shard["order"], backend=shard.get("backend", "numba"), **KW)
             clean, sbc = anc.compute(), anc.compute_single_bin(0.3, L=4)
             out["evals"] += 2
             out["nontrivial"] += 2
@@ -295,6 +313,45 @@ def _layout(shard):
                         seen.add(key)
                         out["failures"].append(fw.fail(key, f"{key}: N={N} order={order}: differs from the float64 1-D result: {k}", {"part": "layout", "seed": shard["seed"]}))
     out["samples"].append({"layouts": "2xN,Nx2,F-order,views,strided,lists,tuples x dtypes f8,f4,i8,i4,bool x N in {8,9,3}"})
+    return out
+
+
+def _untouched(shard):
+    """Finite records: after plan/compute/compute_single_bin (also with L=N: single segment) on every backend and
+    order, every array the caller handed in is byte-identical; read-only inputs are accepted."""
+    N = 8
+    out = {"evals": 0, "nontrivial": 0, "failures": [], "samples": [], "extra": {"caller_arrays_checked": 0}}
+    seen = set()
+    x0, y0 = records.id1(N) * 3 + 5.0, records.id2(N) - 2.0
+    for kind, conts in (("2ch", containers()), ("1ch", containers_1d())):
+        for cn, build in conts.items():
+            for backend, order in itertools.product(("numba", "numpy"), (-1, 0, 1, 2)):
+                obj, snaps = build(x0, y0) if kind == "2ch" else build(x0)
+                before = [s_.tobytes() for s_ in snaps]
+                tag = f"{kind}/{cn}/{backend}/order={order}"
+                out["evals"] += 1
+                out["nontrivial"] += 1
+                try:
+                    an = ana.make_analyzer(obj, 2.0, order=order, backend=backend, **KW)
+                    an.plan()
+                    an.compute()
+                    an.compute_single_bin(0.3, L=4)
+                    an.compute_single_bin(0.3, L=N)
+                    an.compute()
+                except Exception as e:  # noqa: BLE001
+                    key = f"untouched/raises/{kind}/{cn}/{backend}"
+                    if key not in seen:
+                        seen.add(key)
+                        out["failures"].append(fw.fail(key, f"{tag}: finite input raised {type(e).__name__}: {e}", dict(shard)))
+                    continue
+                out["extra"]["caller_arrays_checked"] += len(snaps)
+                for s_, b in zip(snaps, before):
+                    if s_.tobytes() != b:
+                        key = f"untouched/mutated/{kind}/{cn}/{backend}"
+                        if key not in seen:
+                            seen.add(key)
+                            out["failures"].append(fw.fail(key, f"{tag}: the caller's (finite) array was modified: now {np.asarray(s_).tolist()}", dict(shard)))
+    out["samples"].append({"untouched": "containers x backends x orders, plan/compute/single-bin(L=4, L=N)"})
     return out
 
 
